@@ -16,7 +16,7 @@ from fiddle._src import mutate_buildable
 from harness import common, l1, l2
 from harness.common import Failure, Result, Stream, g_list, g_pair, g_nat, g_N, g_Z, g_bool
 
-COQ_TARGETS = ["theories/C16Check.vo", "theories/Anchors.vo"]
+COQ_TARGETS = ["theories/C16Check.vo", "theories/AnchorsEdit.vo"]
 TRUSTED_BASE = ["itertools.count.__next__ is atomic under the GIL (sequence numbers)",
                 "inspect.currentframe (source locations)"]
 ASSUMPTIONS = []
